@@ -29,10 +29,19 @@ func (r *rtRun) ctxFor(id int) context.Context {
 	if ctx, ok := r.ctxs[id]; ok {
 		return ctx
 	}
+	if id%2 == 1 {
+		// a context that ends with an application-supplied cause: what the callee returns must still be a context
+		// error (errors.Is(err, context.Canceled)), the cause is the application's business
+		ctx, cancel := context.WithCancelCause(context.Background())
+		r.ctxs[id], r.cancels[id] = ctx, func() { cancel(errRtAppCause) }
+		return ctx
+	}
 	ctx, cancel := context.WithCancel(context.Background())
 	r.ctxs[id], r.cancels[id] = ctx, cancel
 	return ctx
 }
+
+var errRtAppCause = errors.New("rt: the application is shutting down")
 
 func (r *rtRun) errRes(err error) string {
 	switch {
